@@ -564,6 +564,16 @@ class XArr(numpy.ndarray):
         pass
 
 
+class EigArr(XArr):
+    """result of the eigvals contract stub: the sign pattern (+, -, +, -, ...) is concrete"""
+
+    def __ge__(self, other):
+        return numpy.array([i % 2 == 0 for i in range(self.shape[0])])
+
+    def __gt__(self, other):
+        return numpy.array([i % 2 == 0 for i in range(self.shape[0])])
+
+
 def has_sym(x):
     if isinstance(x, (SC, SymBool)):
         return True
@@ -630,6 +640,34 @@ class XLinalg:
         if not has_sym(a) and not has_sym(b):
             return numpy.linalg.solve(a, b)
         return inv(a) @ b
+
+    def eigvals(self, a):
+        """LAPACK contract stub for a matrix whose spectrum is {+w_i, -w_i} with real w_i >= 0 (the
+        only use in piquasso: GaussianState.fidelity): returns [w_0, -w_0, w_1, -w_1, ...] as
+        uninterpreted atoms of the entries (congruence: equal entries -> equal eigenvalues)."""
+        if not has_sym(a):
+            return numpy.linalg.eigvals(a)
+        env = cur()
+        a = numpy.asarray(a, dtype=object)
+        n = a.shape[0]
+        args = []
+        for v in a.flat:
+            v = SC.lift(v)
+            args += [v.re, v.im]
+
+        def mk():
+            ws = tuple(env.fresh("eigw") for _ in range(n // 2))
+            for w in ws:
+                env.axioms.append(w >= 0)
+            env.defs.append(("eigpm", tuple(w.decl().name() for w in ws), tuple(args)))
+            return ws
+        ws = env._fun_atom2("eigvals%d" % n, tuple(args), mk)
+        out = numpy.empty(n, dtype=object)
+        for i, w in enumerate(ws):
+            out[2 * i] = SC(w)
+            out[2 * i + 1] = SC(-w)
+        env.stubs.append("np.linalg.eigvals (LAPACK) -> contract stub: spectrum {+w_i, -w_i}, w_i uninterpreted functions of the matrix entries")
+        return out.view(EigArr)
 
     def matrix_power(self, a, k):
         if not has_sym(a):
@@ -937,6 +975,7 @@ class Env:
         self.vars = {}            # z3 var name -> z3 var
         self.atoms = {}           # key -> z3 terms
         self._funs = []
+        self._fun_reg = {}
         self.defs = []            # definitional atoms in creation order: (kind, names, arg terms)
         self.axioms = []          # (z3 bool)
         self.assumptions = []     # (label, z3 bool) in sym mode
@@ -1209,6 +1248,35 @@ class Env:
         r = SC(a.re, a.im, None, x)
         return r
 
+    def _link(self, kind, arg, even, odd):
+        """register (argument term, even-part atom, odd-part atom) of cos/sin or cosh/sinh and add
+        congruence axioms against every earlier registration:  a == b -> equal,  a == -b -> even
+        parts equal and odd parts opposite.  Sound: consequences of the functions being functions."""
+        reg = self._fun_reg.setdefault(kind, [])
+        for (a2, e2, o2) in reg:
+            self.axioms.append(z3.Implies(arg == a2, z3.And(even == e2, odd == o2)))
+            self.axioms.append(z3.Implies(arg == -a2, z3.And(even == e2, odd == -o2)))
+        reg.append((arg, even, odd))
+
+    def _generic_pair(self, kind, x):
+        """(even, odd) atoms for cos/sin ('trig') or cosh/sinh ('hyp') of a non-affine real term"""
+        key = ("g" + kind, z3.simplify(x).sexpr())
+        a = self.atoms.get(key)
+        if a is None:
+            e, o = self.fresh("g%s_even" % kind), self.fresh("g%s_odd" % kind)
+            self.atoms[key] = a = (e, o)
+            if kind == "trig":
+                self.axioms.append(e * e + o * o == 1)
+                self.defs.append(("gtrig", (e.decl().name(), o.decl().name()), (x,)))
+            else:
+                self.axioms.append(e * e - o * o == 1)
+                self.axioms.append(e >= 1)
+                self.axioms.append((x > 0) == (o > 0))
+                self.axioms.append((x == 0) == (o == 0))
+                self.defs.append(("ghyp", (e.decl().name(), o.decl().name()), (x,)))
+            self._link(kind, x, e, o)
+        return a
+
     def _trig_base(self, sym):
         key = ("trig", sym)
         a = self.atoms.get(key)
@@ -1217,6 +1285,8 @@ class Env:
             self.atoms[key] = a = (c, s)
             self.axioms.append(c * c + s * s == 1)
             d = self.decl.get(sym)
+            if d is not None and d.kind == "param":
+                self._link("trig", self.var(sym) / d.denom, c, s)
             if d is not None and d.kind == "constangle":
                 x = d.value
                 for t, f in ((c, math.cos(x)), (s, math.sin(x))):
@@ -1234,6 +1304,12 @@ class Env:
             self.atoms[key] = a = (ch, sh)
             self.axioms.append(ch * ch - sh * sh == 1)
             self.axioms.append(ch >= 1)
+            d = self.decl.get(sym)
+            if d is not None and d.kind == "param":
+                v = self.var(sym)
+                self.axioms.append((v > 0) == (sh > 0))
+                self.axioms.append((v == 0) == (sh == 0))
+                self._link("hyp", v / d.denom, ch, sh)
         return a
 
     def sech_atom(self, sym):
@@ -1334,6 +1410,12 @@ class Env:
         return C, S
 
     def trig(self, x):
+        x = SC.lift(x)
+        if x.lin is None and not x.is_const():
+            if not x.is_real():
+                raise HarnessError("cos/sin of a complex symbolic argument")
+            c, s = self._generic_pair("trig", x.re)
+            return SC(c), SC(s)
         re, im = self._lin_of(x, "cos/sin")
         if not im.is_zero():
             raise HarnessError("cos/sin of a complex argument")
@@ -1341,6 +1423,12 @@ class Env:
         return SC(c), SC(s)
 
     def hyp(self, x):
+        x = SC.lift(x)
+        if x.lin is None and not x.is_const():
+            if not x.is_real():
+                raise HarnessError("cosh/sinh of a complex symbolic argument")
+            c, s = self._generic_pair("hyp", x.re)
+            return SC(c), SC(s)
         re, im = self._lin_of(x, "cosh/sinh")
         if not im.is_zero():
             raise HarnessError("cosh/sinh of a complex argument")
@@ -1734,6 +1822,15 @@ def complete_valuation(env, val):
         elif kind == "gtrig":
             val[names[0]] = math.cos(a[0])
             val[names[1]] = math.sin(a[0])
+        elif kind == "eigpm":
+            n = int(round(math.sqrt(len(a) // 2)))
+            M = numpy.array([complex(a[2 * i], a[2 * i + 1]) for i in range(n * n)]).reshape(n, n)
+            ev = sorted([e.real for e in numpy.linalg.eigvals(M) if e.real >= 0], reverse=True)
+            for nm, e in zip(names, ev + [0.0] * len(names)):
+                val[nm] = e
+        elif kind == "ghyp":
+            val[names[0]] = math.cosh(a[0])
+            val[names[1]] = math.sinh(a[0])
         elif kind == "gexp":
             val[names[0]] = math.exp(a[0])
             val[names[1]] = math.exp(-a[0])
